@@ -33,6 +33,7 @@ QUICK_SHARDS = [  # (toml file, legacy section, spelling, quoting, files, msg, o
     ("bumpver.toml", False, 0, 0, 0, 0, True), ("bumpver.toml", False, 1, 1, 1, 1, False), ("bumpver.toml", False, 2, 2, 2, 2, True),
     ("bumpver.toml", False, 3, 0, 2, 1, False), ("bumpver.toml", False, 4, 1, 0, 2, False), ("bumpver.toml", False, 5, 2, 1, 0, True),
     ("pyproject.toml", False, 1, 0, 2, 0, False), (".bumpver.toml", False, 4, 2, 1, 1, True), ("bumpver.toml", True, 2, 1, 1, 2, False),
+    ("bumpver.toml", False, 0, 1, 3, 1, False),
 ]
 
 
@@ -44,7 +45,7 @@ def obligations(tier):
     else:
         shards = [(f, leg, sp, q, fl, m, own) for (f, leg) in [("bumpver.toml", False), (".bumpver.toml", False), ("pyproject.toml", False),
                                                                 ("bumpver.toml", True)]
-                  for sp, q, fl, m, own in itertools.product(range(6), range(3), range(3), range(3), (False, True))
+                  for sp, q, fl, m, own in itertools.product(range(6), range(3), range(4), range(3), (False, True))
                   if f == "bumpver.toml" and not leg or (sp + q + fl + m) % 6 == 0]
     for f, leg, sp, q, fl, m, own in shards:
         obs.append(Ob(f"L1.same_meaning[setup.cfg vs {f}{' [pycalver]' if leg else ''}; spelling {sp}, quoting {q}, files {fl}, message {m}, "
